@@ -397,6 +397,8 @@ def run(chk, facts, tier, only=None):
         chk.include(c10, "C10.R6", "C08.R9", facts)     # untyped variant decoding: accessor hint and accessor test read the same (expected) type
         import c01
         chk.include(c01, "C01.R10", "C08.R10", facts)   # the fast path accepts exactly the element types the element-wise path accepts (newtype structs around a primitive)
+        import c02 as _c02
+        chk.include(_c02, "C02.R14", "C08.R11", facts)  # both decoders see the same error class (recoverable below opt or not)
 
 
 def variant_paths_pat(m):
